@@ -77,7 +77,7 @@ def somigliana(h):
     g2 = E.normal_gravity(-lat)
     h.out('g(lat)', g1)
     h.check('g(lat) == g(-lat)', h.eq(g1, g2))
-    hh = h.real('h', 0.0, 500.0)
+    hh = h.real('h', 0.0, 5e5)
     h.assume(h.le(hh, 0.005 * a) & h.gt(hh, 0.0))
     gh = E.normal_gravity(lat, hh)
     m = w * w * a * a * b / GM
